@@ -4,36 +4,26 @@ from props import muxcommon as mx
 
 
 def run_property(ctx, level, assume, keys, mcs, gens, rule, extra=None):
-    """mcs: list of (name, subst, timeout); gens: list of (name, subst, depth, noops, simulate|None, nc, opts)."""
-    results = []
-    nb = 0
-    for name, subst, timeout in mcs:
-        mx.model_check(ctx, name, subst, timeout=timeout)
-    for name, subst, depth, noops, simulate, nc, opts in gens:
-        beh = mx.generate(ctx, name, subst, depth=depth, noops=noops, simulate=simulate)
-        if not beh:
-            raise lib.Inconclusive("no behaviours generated for " + name)
-        nb += len(beh)
-        results.append(mx.replay(ctx, name, beh, nc=nc, **opts))
-    for r in results:
-        if r.get("_died"):
-            raise lib.Inconclusive("replay driver died: " + r.get("_stdout_tail", ""))
-        for v in r.get("violations", []):
-            if v["key"] in keys:
-                ctx.violations.append(v)
-            else:
-                ctx.notes.append("observation outside this property (%s): %s" % (v["key"], v["what"]))
-    tot = mx.merge(results)
+    res, nb = mx.run_all(ctx, mcs, gens)
+    if res.get("_died"):
+        raise lib.Inconclusive("replay driver died: " + res.get("_stdout_tail", ""))
+    for v in res.get("violations", []):
+        if v["key"] in keys:
+            ctx.violations.append(v)
+        else:
+            ctx.notes.append("observation outside this property (%s): %s" % (v["key"], v["what"]))
+    st = res.get("stats", {})
     more = extra(ctx) if extra else {}
-    if tot["diverged"] and not ctx.violations:
+    if st.get("diverged", 0) and not ctx.violations:
         raise lib.Inconclusive("model drift: %d behaviours could not be followed by the code without a property failure: %s"
-                               % (tot["diverged"], tot["notes"][:3]))
+                               % (st.get("diverged", 0), res.get("notes", [])[:3]))
     cov = {
-        "evaluations": tot["evaluations"] + more.get("evaluations", 0),
-        "distinct_nontrivial": tot["distinct_nontrivial"] + more.get("distinct_nontrivial", 0),
-        "rule": rule, "samples": (tot["samples"] + more.get("samples", []))[:5],
+        "evaluations": res["evaluations"] + more.get("evaluations", 0),
+        "distinct_nontrivial": res["distinct_nontrivial"] + more.get("distinct_nontrivial", 0),
+        "rule": rule, "samples": (res.get("samples", [])[:4] + more.get("samples", []))[:6],
         "traces_validated_against_impl": nb + more.get("traces", 0), "exhaustive": True,
-        "diverged": tot["diverged"], "unstable": tot["unstable"],
+        "diverged": st.get("diverged", 0), "unstable": st.get("unstable", 0),
+        "replay_stats": {k: v for k, v in st.items() if ":" in k and not k.startswith("violations:")},
     }
     for k, v in more.items():
         if k not in ("evaluations", "distinct_nontrivial", "samples", "traces"):
@@ -42,6 +32,7 @@ def run_property(ctx, level, assume, keys, mcs, gens, rule, extra=None):
 
 
 def replay_file(ctx, path):
-    res = lib.run_go(ctx, "multiplex", "TestVerifMuxReplay", env={"VERIF_REPLAY": path})
+    import os
+    res = lib.run_go(ctx, "multiplex", "TestVerifMuxReplay", env={"VERIF_REPLAY": os.path.abspath(path)}, extra_args=["-v"])
     print(open(res["_out_dir"] + "/go.out").read())
     return 0
